@@ -147,7 +147,7 @@ def coq_model_expr(case):
 
 
 CLAIM = {
-    'text': 'Theorems (Coq) for ALL w >= 1, s >= 1, all lengths, any number of ring wrap-arounds, any inner machine: both code paths refine their per-key machines at slot level; after n items ring slot o holds start iff start = j*s, j mod d = o, start < n < start + w (no window lost or overwritten); item i is delivered to window st iff st = j*s <= i < st+w; the inner machine of an open window is a fresh one fed exactly the items since its start; closed-form timed output: while the i-th item is consumed the roll emits, per ring slot, what a fresh inner machine fed the items since the window start emits on it plus its completion output if this is the window's w-th item (C05_output_while_an_item_is_consumed), and at completion the open windows emit their completion output in the flush order (C05_output_at_completion); at completion the partial windows are flushed at increasing positions j+d-q, i.e. in opening order; for w = s the windows are consecutive chunks of w items plus a final shorter non-empty one, each processed by a fresh inner machine. Tied by exhaustive (w,s) <= 8 (12) x lengths, under group_by/roll/split; oracle: timed window spec.',
+    'text': 'Theorems (Coq) for ALL w >= 1, s >= 1, all lengths, any number of ring wrap-arounds, any inner machine: both code paths refine their per-key machines at slot level; after n items ring slot o holds start iff start = j*s, j mod d = o, start < n < start + w (no window lost or overwritten); item i is delivered to window st iff st = j*s <= i < st+w; the inner machine of an open window is a fresh one fed exactly the items since its start; closed-form timed output: while the i-th item is consumed the roll emits, per ring slot, what a fresh inner machine fed the items since the window start emits on it plus its completion output if this is the w-th item of the window (C05_output_while_an_item_is_consumed), and at completion the open windows emit their completion output in the flush order (C05_output_at_completion); at completion the partial windows are flushed at increasing positions j+d-q, i.e. in opening order; for w = s the windows are consecutive chunks of w items plus a final shorter non-empty one, each processed by a fresh inner machine. Tied by exhaustive (w,s) <= 8 (12) x lengths, under group_by/roll/split; oracle: timed window spec.',
     'note': 'Trusted: Coq kernel+VM; hand-written model tied by correspondence.',
     'technique': 'Coq proof (forward-simulation refinement of a slot-level model by per-key local machines, list-level induction) + vm_compute correspondence against /repo + model-free oracle',
 }
